@@ -199,6 +199,25 @@ Proof.
         destruct (decide (k' = x)) as [->|N]; [rewrite lookup_insert; eauto|].
         rewrite lookup_insert_ne by exact N. exact Hx.
 Qed.
+(** "registered there first", whatever the registry did before: once the loop has run, every name
+    either needed no registration when it was reached, or the key it asked for is a key of the final
+    registry — for EVERY starting state, including one whose [_lazy_units] remembers names that a
+    context overlay has meanwhile dropped from [_units] *)
+Lemma register_all_present r ns r' ks n :
+  register_all r ns = SOk (r', ks) → n ∈ ns →
+  ∃ r1, resolve1 r1 n = SOk None ∨ ∃ k, resolve1 r1 n = SOk (Some k) ∧ is_Some (r_units r' !! k).
+Proof.
+  revert r r' ks. induction ns as [|m ns IH]; intros r r' ks; simpl; [intros _ H; inversion H|].
+  unfold reg_get_name. destruct (resolve1 r m) as [[k|]|e] eqn:E1; [| |discriminate].
+  - destruct (register_all (register k r) ns) as [[r2 k2]|] eqn:E2; [|discriminate]. intros [= <- <-] Hn.
+    apply elem_of_cons in Hn as [->|Hn]; [|eapply IH; eauto].
+    exists r. right. exists k. split; [exact E1|].
+    pose proof (register_all_spec _ _ _ _ E2) as (_ & _ & _ & _ & _ & Hu). rewrite Hu.
+    apply write_keys_dom. left. simpl. rewrite lookup_insert. eauto.
+  - destruct (register_all r ns) as [[r2 k2]|] eqn:E2; [|discriminate]. intros [= <- <-] Hn.
+    apply elem_of_cons in Hn as [->|Hn]; [exists r; left; exact E1|eapply IH; eauto].
+Qed.
+
 Lemma register_all_defined r ns :
   (∀ n, n ∈ ns → is_lazy r n = false ∧ is_Some (r_units r !! n)) → register_all r ns = SOk (r, []).
 Proof.
@@ -518,3 +537,27 @@ Lemma ex_cross :
   ∧ xop_apply false XLt ex_q (rebind ex_app ex_q) = XValueError
   ∧ xop_apply false XMul ex_q ex_q = XSameRegistry.
 Proof. repeat split. Qed.
+
+(** ** a prefixed unit first met inside a unit-redefining context (seeded change C18-m5) *)
+Definition ex_inside : sreg := match unpickle_q ex_app (reduce_q ex_q) with SOk (_, r) => r | SErr _ => ex_app end.
+Definition ex_left : sreg := ctx_leave (ctx_enter ex_app).2 ex_inside.
+Lemma ex_context_history :
+  (* inside the context both names were written, leaving drops them from _units but not from _lazy_units *)
+  is_Some (r_units ex_inside !! "kiloinch") ∧ r_units ex_left !! "kiloinch" = None ∧ is_lazy ex_left "kiloinch" = true
+  (* unpickling afterwards registers them again *)
+  ∧ ∃ r, unpickle_q ex_left (reduce_q ex_q) = SOk (rebind ex_left ex_q, r)
+         ∧ is_Some (r_units r !! "kiloinch") ∧ is_Some (r_units r !! "microfortnight").
+Proof.
+  split; [vm_compute; eauto|]. split; [vm_compute; reflexivity|]. split; [vm_compute; reflexivity|].
+  destruct (register_all ex_left (key_order (c_d (o_units ex_q)))) as [[r ks]|] eqn:E; [|vm_compute in E; discriminate].
+  exists r. split; [exact (unpickle_with_ok _ _ _ _ _ E)|].
+  pose proof (register_all_spec _ _ _ _ E) as (_ & _ & _ & _ & _ & Hu). rewrite Hu.
+  assert (ks = ["kiloinch"; "microfortnight"] ∨ ks = ["microfortnight"; "kiloinch"]) as [-> | ->]
+    by (vm_compute in E; injection E as _ <-; auto).
+  all: split; apply write_keys_dom; right; set_solver.
+Qed.
+(** the mutant "skip what the parse cache knows" leaves the unit out *)
+Lemma skipping_cache_refuted :
+  ∃ r ks, register_all_skipping ["kiloinch"; "microfortnight"] ex_left (key_order (c_d (o_units ex_q))) = SOk (r, ks)
+          ∧ r_units r !! "kiloinch" = None.
+Proof. eexists _, _. split; vm_compute; reflexivity. Qed.
